@@ -77,7 +77,7 @@ class SnowfakeryApplication:
 
     def ensure_progress_was_made(self, id_manager):
         """Check that we are actually making progress towards our goal"""
-        if not self.stopping_tablename:
+        if self.stopping_tablename is None:
             return False
 
         last_used_id = id_manager[self.stopping_tablename]
